@@ -33,9 +33,28 @@ def run(ctx):
     core.lean_phase(ctx)
     rng = ctx.rng
     reqs, metas = [], []
+
+    def flush():
+        outs = ctx.driver.run(reqs) if reqs else []
+        for req, (replay, st, val_), out in zip(reqs, metas, outs):
+            ctx.count("model_requests")
+            if "bad" in out:
+                ctx.mismatch("apply", replay, st, out)
+            elif st == "ok":
+                if out.get("ok") != val_:
+                    ctx.mismatch("apply", replay, "ok", out if "err" in out else {"different": out.get("ok")})
+            else:
+                cls = "rejected" if st in ("failed", "valueError") else st
+                mcls = "rejected" if out.get("err") in ("failed", "valueError") else out.get("err", "ok")
+                if cls != mcls:
+                    ctx.mismatch("apply", replay, st, out if "err" in out else "ok")
+        del reqs[:], metas[:]
+
     fam = schemas.family()
     n_schemas = ctx.budget(14, 70)
     for si in range(n_schemas):
+        if len(reqs) >= 15000:
+            flush()     # keep memory bounded in long runs
         info = fam[si % len(fam)] if si < len(fam) or rng.random() < 0.4 else schemas.random_schema(rng)
         schema = info.schema
         val = validator(schema)
@@ -76,19 +95,7 @@ def run(ctx):
                     ctx.violation("internal-error", f"Step.apply died with an internal error: {res}", replay)
                 reqs.append({"op": "apply", "s": info.lean_id, "doc": info.node(d), "step": sj})
                 metas.append((replay, st, info.node(res) if st == "ok" else None))
-    outs = ctx.driver.run(reqs) if reqs else []
-    for req, (replay, st, val_), out in zip(reqs, metas, outs):
-        ctx.count("model_requests")
-        if "bad" in out:
-            ctx.mismatch("apply", replay, st, out)
-        elif st == "ok":
-            if out.get("ok") != val_:
-                ctx.mismatch("apply", replay, "ok", out if "err" in out else {"different": out.get("ok")})
-        else:
-            cls = "rejected" if st in ("failed", "valueError") else st
-            mcls = "rejected" if out.get("err") in ("failed", "valueError") else out.get("err", "ok")
-            if cls != mcls:
-                ctx.mismatch("apply", replay, st, out if "err" in out else "ok")
+    flush()
     return ctx.finish(
         rule="a case is (schema, valid document, step) with the step of a random kind among the eight, positions inside "
              "the document, slices cut from other valid documents (all open depths), wrappers plausible and implausible, "
